@@ -229,8 +229,12 @@ static void verif_cb(int ev, long pnum, long a, long b, long c, const void *p)
 }
 #endif
 
+extern volatile long verif_lock_jitter_us;      /* lock_jitter.c */
+extern pthread_mutex_t *volatile verif_nojitter_mutex;
 static void cb_reset(case_t *c)
 {
+    verif_lock_jitter_us = (c->pprob > 0 && c->pmaxus > 0) ? (c->pmaxus < 200 ? c->pmaxus : 200) : 0;
+    verif_nojitter_mutex = &evmu;
     long i;
     cur_case = c; cb_n = c->n;
     free(rel_count); free(done_count); free(lsub_start);
